@@ -162,16 +162,32 @@ def main():
             )
 
         if args.tier == "quick":
-            for part in parts:
+            order = {}
+            for pos, part in enumerate(parts):
                 for c in range(int(part["chunks"] * args.scale)):
-                    futs[pool.submit(_run_chunk_guarded, mkjob(part, c))] = ("chunk", part["sub"])
+                    fu = pool.submit(_run_chunk_guarded, mkjob(part, c))
+                    futs[fu] = ("chunk", part["sub"])
+                    order[fu] = (pos, c)
+            cut = None  # jobs after the first violating job (in submission order) are not needed
             pending_iter = as_completed(futs, timeout=3000)
             for fu in pending_iter:
                 kind, info = futs[fu]
+                if fu.cancelled():
+                    continue
                 res = fu.result()
                 if kind == "known":
                     known_results.append((info, res))
                 else:
+                    if cut is not None and order[fu] > cut:
+                        continue
+                    if res.get("violations") or res.get("harness_errors") or res.get("unsupported"):
+                        if cut is None or order[fu] < cut:
+                            cut = order[fu]
+                            for f2, o2 in order.items():
+                                if o2 > cut:
+                                    f2.cancel()
+                    for vv in res.get("violations", []):
+                        vv["order"] = list(order[fu]) + [vv["index"]]
                     merge(total, res)
                     merge(total_by_sub.setdefault(info, {}), {k: v for k, v in res.items() if k in ("runs", "runs_with_death", "runs_with_relevant_death", "outcomes", "faults_fired", "known", "sweep_points", "sweep_workloads")})
         else:
@@ -246,7 +262,7 @@ def main():
     if total.get("harness_errors"):
         status["harness"] = total["harness_errors"][:5]
 
-    viols = sorted(total.get("violations", []), key=lambda v: (v["index"], v["run_id"]))
+    viols = sorted(total.get("violations", []), key=lambda v: (v.get("order") or [0, 0, v["index"]], v["run_id"]))
     replay_path = None
     shrink_info = None
     if viols and not status["harness"]:
